@@ -188,7 +188,7 @@ def run(ctx):
                 viol.append({'property': 'C20', 'kind': 'kept-although-failing', 'structure': s, 'fails': fails,
                              'witness': {'rows': rows, 'options': opts}})
             elif not k and not fails:
-                viol.append({'property': 'C20', 'kind': 'removed-although-passing', 'structure': s,
+                viol.append({'property': 'C20', 'kind': 'removed-although-passing', 'structure': s, 'category': 'X' if hasx else 'other',
                              'witness': {'rows': rows, 'options': opts}})
         dist['has_X'] += int(any('X' in s for s, _ in rows))
         dist['multi_digit'] += int(any(re.search('[0-9]{2,}', s) for s, _ in rows))
